@@ -228,6 +228,8 @@ impl Cluster {
     }
 
     pub fn find_stmt(&self, text: &str) -> Option<usize> {
+        // Leading whitespace is not part of a statement (requests may be padded with it).
+        let text = text.trim_start();
         let (shape, _) = split_marker(text);
         self.catalog
             .iter()
